@@ -1,6 +1,7 @@
 package internal
 
 import (
+	"bytes"
 	"io"
 	"os"
 	"strings"
@@ -33,6 +34,21 @@ func ReadFullAt(r io.ReaderAt, buf []byte, off int64) (n int, err error) {
 		return n, io.ErrUnexpectedEOF
 	}
 	return n, err
+}
+
+// ReadBytes reads exactly n bytes from r where n is a length taken from the
+// wire. The buffer grows with the bytes that actually arrive instead of being
+// allocated up front, so a hostile length prefix cannot make the process
+// allocate gigabytes after a few received bytes. Errors follow io.ReadFull:
+// io.EOF if nothing could be read, io.ErrUnexpectedEOF after a partial read.
+func ReadBytes(r io.Reader, n uint32) ([]byte, error) {
+	var buf bytes.Buffer
+	if _, err := io.CopyN(&buf, r, int64(n)); err == io.EOF && buf.Len() > 0 {
+		return nil, io.ErrUnexpectedEOF
+	} else if err != nil {
+		return nil, err
+	}
+	return buf.Bytes(), nil
 }
 
 // Close closes closer but ignores select errors.
